@@ -7,7 +7,7 @@ from vf import gen
 
 PID = "C18"
 ANCHORS = ["pyoma2.functions.gen:MAC", "pyoma2.functions.gen:MPC", "pyoma2.functions.gen:MPD", "pyoma2.functions.gen:MCF", "pyoma2.functions.gen:MSF"]
-REQUIRED_MONITORS = ["arguments-unchanged+auto-MAC", "mixed-dtype MAC", "range@MAC", "range@MPC", "range@MPD", "range@MCF", "shape+symmetry@MAC", "scale-invariance", "collinear-exact",
+REQUIRED_MONITORS = ["set=columns@MCF", "arguments-unchanged+auto-MAC", "mixed-dtype MAC", "range@MAC", "range@MPC", "range@MPD", "range@MCF", "shape+symmetry@MAC", "scale-invariance", "collinear-exact",
                      "MSF(v,cv)=c", "contracts-active-during-SSI-run"]
 CLASSES = ["generic", "generic_unit_normalised", "generic_zero_or_real_components", "nearly_collinear_1e-8", "nearly_collinear_1e-3", "collinear", "collinear_unit_normalised", "collinear_zero_components",
            "collinear_halves", "constant", "isotropic_reference", "sets"]
@@ -322,6 +322,12 @@ def run_sets(ctx, rng):
                 ctx.check(abs(np.asarray(M)[i, j] - e) <= 1e-10, "MAC:entry_value", lambda: f"MAC[{i},{j}]={np.asarray(M)[i,j]!r} expected {e!r}")
     mcf = call(ctx, "MCF", X)
     ctx.check(np.shape(mcf) == (nx,), "MCF:shape", lambda: f"MCF of {nx} shapes has shape {np.shape(mcf)}")
+    if np.shape(mcf) == (nx,):
+        ctx.ev("set=columns@MCF")
+        from pyoma2.functions import gen as G_
+        per = np.array([np.ravel(G_.MCF(X[:, i].copy()))[0] for i in range(nx)])
+        ctx.check(np.allclose(np.ravel(mcf), per, rtol=1e-9, atol=1e-12, equal_nan=True), "MCF:set_value_is_not_the_value_of_its_column",
+                  lambda: f"MCF of a set of {nx} shapes with {n} components = {np.ravel(mcf)}, shape by shape {per}")
     if nx >= 2:
         c = rng.uniform(0.05, 20, nx) * rng.choice([-1, 1], nx)
         den = np.abs(np.sum(X * X, axis=0)) / np.sum(np.abs(X) ** 2, axis=0)
